@@ -399,7 +399,7 @@ func (its *listSnapshot) validateGetRange(pos int, numOfNodes int) errors.OrdaEr
 	if numOfNodes < 1 {
 		return errors.DatatypeIllegalParameters.New(its.L(), "numOfNodes should be more than 0")
 	}
-	if its.size-1 < pos || pos+numOfNodes > its.size {
+	if its.size-1 < pos || numOfNodes > its.size-pos { // pos+numOfNodes could overflow
 		return errors.DatatypeIllegalParameters.New(its.L(), "out of bound index")
 	}
 	return nil
